@@ -299,7 +299,8 @@ func (m Manager) GetNodesDeployCapacity(ctx context.Context, nodenames []string,
 	for _, info := range resp {
 		info.Rate /= info.Weight
 		info.Usage /= info.Weight
-		if info.Capacity == math.MaxInt64 {
+		// saturating sum: an unlimited node keeps the total unlimited whatever follows
+		if info.Capacity == math.MaxInt64 || total > math.MaxInt64-info.Capacity {
 			total = math.MaxInt64
 		} else {
 			total += info.Capacity
